@@ -1,6 +1,7 @@
 import MaltModel.Proofs.C01Exprs
 import MaltModel.Proofs.C01ExprsStmt
 import MaltModel.Proofs.C01ExprsTarget
+import MaltModel.Sem.Operators
 /-
 C01, expression part — the expression wrappers are transparent under the default operators.
 
@@ -147,5 +148,129 @@ def demoProg : Malt.Sem.Block :=
 
 example : (execWB cexX 40 (wrapB false demoProg) σ0).map Malt.Sem.observe
     = some ⟨.ret (.int 1), [.call "f" [.int 0], .call "f" [.int 1], .call "g" [.int 2]]⟩ := by decide
+
+/-! ## Each default operator implementation = the native construct
+
+Over `Malt.Sem`, for ALL operand expressions (including raising and effectful ones: the statements are equalities
+of computations, so an exception propagates from the same operand at the same point with the same log), every
+oracle and every state.  `Ops.*` (Sem/Operators.lean) transcribes `malt/operators/*.py`. -/
+section operators
+open Malt.SemW.Ops
+variable (X : Ext)
+
+/-- `ag__.and_(lambda: a, lambda: b)` is `a and b`: `b` is evaluated iff `a` is truthy, after `a`. -/
+theorem op_and_native (a b : Malt.Sem.Expr) :
+    Ops.and_ (Malt.Sem.evalE X a) (Malt.Sem.evalE X b) = Malt.Sem.evalE X (.and a b) := by
+  funext σ
+  simp only [Ops.and_, Malt.Sem.evalE]
+  rcases Malt.Sem.evalE X a σ with ⟨ex | v, σ1⟩ <;> rfl
+
+theorem op_or_native (a b : Malt.Sem.Expr) :
+    Ops.or_ (Malt.Sem.evalE X a) (Malt.Sem.evalE X b) = Malt.Sem.evalE X (.or a b) := by
+  funext σ
+  simp only [Ops.or_, Malt.Sem.evalE]
+  rcases Malt.Sem.evalE X a σ with ⟨ex | v, σ1⟩ <;> rfl
+
+/-- `ag__.not_(e)` (operand evaluated by the caller) is `not e`. -/
+theorem op_not_native (e : Malt.Sem.Expr) :
+    bind1 (Malt.Sem.evalE X e) (fun v => Ops.pure (Ops.not_ v)) = Malt.Sem.evalE X (.not e) := by
+  funext σ
+  simp only [bind1, Ops.pure, Ops.not_, Malt.Sem.evalE]
+  rcases Malt.Sem.evalE X e σ with ⟨ex | v, σ1⟩ <;> rfl
+
+/-- `ag__.if_exp(c, lambda: t, lambda: e, repr)` is `t if c else e`: exactly one branch thunk is called. -/
+theorem op_if_exp_native (c t e : Malt.Sem.Expr) :
+    bind1 (Malt.Sem.evalE X c) (fun v => Ops.if_exp v (Malt.Sem.evalE X t) (Malt.Sem.evalE X e))
+      = Malt.Sem.evalE X (.ite c t e) := by
+  funext σ
+  simp only [bind1, Ops.if_exp, Malt.Sem.evalE]
+  rcases Malt.Sem.evalE X c σ with ⟨ex | v, σ1⟩ <;> rfl
+
+/-- `ag__.eq(a, b)` / `ag__.not_eq(a, b)` (EQUALITY_OPERATORS) are `a == b` / `a != b`. -/
+theorem op_eq_native (a b : Malt.Sem.Expr) :
+    bind2 (Malt.Sem.evalE X a) (Malt.Sem.evalE X b) (fun v w => .ok (Ops.eq v w)) = Malt.Sem.evalE X (.bin .eq a b) := by
+  funext σ
+  simp only [bind2, Ops.eq, Malt.Sem.evalE, evalBin_eq]
+  rcases Malt.Sem.evalE X a σ with ⟨ex | v, σ1⟩
+  · rfl
+  · simp only []
+    rcases Malt.Sem.evalE X b σ1 with ⟨ex | w, σ2⟩ <;> rfl
+
+theorem op_not_eq_native (a b : Malt.Sem.Expr) :
+    bind2 (Malt.Sem.evalE X a) (Malt.Sem.evalE X b) (fun v w => .ok (Ops.not_eq v w)) = Malt.Sem.evalE X (.bin .ne a b) := by
+  funext σ
+  simp only [bind2, Ops.not_eq, Ops.not_, Ops.eq, Malt.Sem.evalE, evalBin_ne]
+  rcases Malt.Sem.evalE X a σ with ⟨ex | v, σ1⟩
+  · rfl
+  · simp only []
+    rcases Malt.Sem.evalE X b σ1 with ⟨ex | w, σ2⟩ <;> rfl
+
+/-- `ag__.ld(x)` is the read of `x` (same value; NameError for an unbound name / `Undefined` placeholder). -/
+theorem op_ld_native (x : Name) : Ops.ld x = Malt.Sem.evalE X (.var x) := by
+  funext σ
+  simp only [Ops.ld, Malt.Sem.evalE]
+  cases σ.env x <;> rfl
+
+/-- `ag__.converted_call(f, (args…), None, scope)` for an unconverted callee is `f(args…)`: arguments evaluated left
+to right first (an exception in an argument propagates before the call), same result, same logged call. -/
+theorem op_converted_call_native (f : Name) (args : List Malt.Sem.Expr) :
+    bindL (Malt.Sem.evalArgs X args) (Ops.converted_call X f) = Malt.Sem.evalE X (.call f args) := by
+  funext σ
+  simp only [bindL, Ops.converted_call, Malt.Sem.evalE]
+  rcases Malt.Sem.evalArgs X args σ with ⟨ex | vs, σ1⟩ <;> rfl
+
+/-- Exceptions propagate from the same operand at the same point: if the left operand raises, `and_`/`or_` raise
+the same exception in the same state and never call the right thunk (whatever it is). -/
+theorem op_and_or_propagate (a : Malt.Sem.Expr) (k : Comp) (σ σ' : St) (ex : Exc)
+    (h : Malt.Sem.evalE X a σ = (.error ex, σ')) :
+    Ops.and_ (Malt.Sem.evalE X a) k σ = (.error ex, σ') ∧ Ops.or_ (Malt.Sem.evalE X a) k σ = (.error ex, σ') := by
+  simp [Ops.and_, Ops.or_, h]
+
+/-- laziness, explicitly: a falsy left operand of `and_` (truthy of `or_`) is returned and the right thunk is not called -/
+theorem op_and_or_lazy (a : Malt.Sem.Expr) (k : Comp) (σ σ' : St) (v : Val) (h : Malt.Sem.evalE X a σ = (.ok v, σ')) :
+    (truthy v = false → Ops.and_ (Malt.Sem.evalE X a) k σ = (.ok v, σ')) ∧
+    (truthy v = true → Ops.or_ (Malt.Sem.evalE X a) k σ = (.ok v, σ')) := by
+  constructor <;> intro hv <;> simp [Ops.and_, Ops.or_, h, hv]
+
+/-- The wrapper forms of `Malt.SemW` mean exactly these operator applications. -/
+theorem evalW_is_operator_application (a b c : Expr) (x : Name) :
+    evalW X (.and_ a b) = Ops.and_ (evalW X a) (evalW X b) ∧
+    evalW X (.or_ a b) = Ops.or_ (evalW X a) (evalW X b) ∧
+    evalW X (.not_ a) = bind1 (evalW X a) (fun v => Ops.pure (Ops.not_ v)) ∧
+    evalW X (.ifExp c a b) = bind1 (evalW X c) (fun v => Ops.if_exp v (evalW X a) (evalW X b)) ∧
+    evalW X (.eq_ a b) = bind2 (evalW X a) (evalW X b) (fun v w => .ok (Ops.eq v w)) ∧
+    evalW X (.notEq_ a b) = bind2 (evalW X a) (evalW X b) (fun v w => .ok (Ops.not_eq v w)) ∧
+    evalW X (.ld x) = Ops.ld x := by
+  refine ⟨?_, ?_, ?_, ?_, ?_, ?_, ?_⟩ <;> funext σ
+  · simp only [evalW, Ops.and_]; rcases evalW X a σ with ⟨ex | v, σ1⟩ <;> rfl
+  · simp only [evalW, Ops.or_]; rcases evalW X a σ with ⟨ex | v, σ1⟩ <;> rfl
+  · simp only [evalW, bind1, Ops.pure, Ops.not_]; rcases evalW X a σ with ⟨ex | v, σ1⟩ <;> rfl
+  · simp only [evalW, bind1, Ops.if_exp]; rcases evalW X c σ with ⟨ex | v, σ1⟩ <;> rfl
+  · simp only [evalW, bind2, Ops.eq]
+    rcases evalW X a σ with ⟨ex | v, σ1⟩
+    · rfl
+    · simp only []
+      rcases evalW X b σ1 with ⟨ex | w, σ2⟩ <;> rfl
+  · simp only [evalW, bind2, Ops.not_eq, Ops.not_, Ops.eq]
+    rcases evalW X a σ with ⟨ex | v, σ1⟩
+    · rfl
+    · simp only []
+      rcases evalW X b σ1 with ⟨ex | w, σ2⟩ <;> rfl
+  · simp only [evalW, Ops.ld]; cases σ.env x <;> rfl
+
+/-- LISTS, for a list held in a local or parameter (no alias): `l = ag__.list_append(l, x)` computes what
+`l.append(x)` leaves in `l`, i.e. `l + [x]`; `list_pop` returns the list without its last element and that element. -/
+theorem op_list_append_native (xs : List Int) (x : Int) :
+    Ops.list_append (.list xs) (.int x) = evalBin .add (.list xs) (.list [x]) := rfl
+
+theorem op_list_pop_native (xs : List Int) (x : Int) :
+    Ops.list_pop (.list (xs ++ [x])) = some (.list xs, .int x) := by
+  simp [Ops.list_pop]
+
+theorem op_list_pop_after_append (xs : List Int) (x : Int) :
+    (Ops.list_append (.list xs) (.int x)).toOption.bind Ops.list_pop = some (.list xs, .int x) := by
+  simp [Ops.list_append, Except.toOption, Ops.list_pop]
+
+end operators
 
 end Malt.C01Exprs
